@@ -472,6 +472,18 @@ def erase_param_names(t):
     return tuple(erase_param_names(x) if isinstance(x, tuple) else x for x in t)
 
 
+def callee_is(name, want):
+    """`name` ends with `want` at a path-segment boundary: `with_fill` matches
+    `IntVec::with_fill` and not `block_with_fill` (a bare str.endswith did,
+    round 17)."""
+    if not isinstance(name, str) or not name.endswith(want):
+        return False
+    if len(name) == len(want) or not (want[0].isalnum() or want[0] == "_"):
+        return True
+    prev = name[-len(want) - 1]
+    return not (prev.isalnum() or prev == "_")
+
+
 def subterms(t):
     """all subterms, pre-order"""
     yield t
